@@ -1,0 +1,19 @@
+//go:build verif
+
+package types
+
+// Contracts for the verification framework in /verif (comment-only file; compiled
+// only with -tags verif, where it contributes nothing but these comments).
+
+//@ spec func ms(t int) int = fdiv(t, 1000000)
+//@ pred timeOK(t int) = -4000000000000000000 < t && t < 4000000000000000000
+//@
+//@ spec func linSched(A int, s int, e int, t int) int =
+//@   t > e ? A * P : (t < s ? 0 : tquo(A * P * (ms(t) - ms(s)), ms(e) - ms(s)))
+//@
+//@ func (m *LinearMinting) AmountToMint(logger, startTime, endTime, blockTime) (res)
+//@   requires m != nil && endTime != nil && !m.Amount.IsNil()
+//@   requires timeOK(startTime) && timeOK(*endTime) && timeOK(blockTime)
+//@   requires ms(*endTime) > ms(startTime)
+//@   ensures !res.IsNil() && res == linSched(m.Amount, startTime, *endTime, blockTime)
+//@   prop C02
